@@ -260,6 +260,12 @@ func (x *Exec) Do(op string) core.Result {
 	if t[0] == "drained" {
 		return x.drained()
 	}
+	if t[0] == "e2e-preface" && len(t) == 2 {
+		if x.prop != "C08" {
+			return core.Result{Impl: "e2e skipped", SkipModel: true}
+		}
+		return e2ePreface(t[1])
+	}
 	if x.dead {
 		return core.Result{Impl: "dead", SkipModel: x.realHpack}
 	}
